@@ -250,8 +250,13 @@ def o_c01(rec):
     if rec.res is not None:
         x = np.asarray(rec.res.x, dtype=float)
         if not inside(x):
+            fin = np.concatenate([lb[np.isfinite(lb)], ub[np.isfinite(ub)]])
+            huge = fin.size and float(np.max(np.abs(fin))) >= 1e150
+            mech = "nan_point_huge_scaled_box" if (
+                huge and bool(completed_options(rec).get("scale"))
+                and x.shape == lb.shape and np.any(np.isnan(x))) else None
             out.append(V("A.result_outside", f"res.x={x.tolist()} outside bounds",
-                         x=x, lb=lb, ub=ub))
+                         x=x, lb=lb, ub=ub, mechanism=mech))
     # B: trial points as generated (before any projection)
     for ev in rec.run.evals:
         pb = ev["pb"]
